@@ -982,3 +982,9 @@ mutant('C01', 'reset-shares-one-list', PT, "            for variable in element.
 mutant('C06', 'interval-times-speed-guarded-on-result', UN, "    def __mul__(self, other: float | int) -> TimeInterval:\n        super().__mul__(other=other)\n\n        if other <= 0:",
        "    def __mul__(self, other):\n        result = super().__mul__(other=other)\n        if not isinstance(result, Time):\n            if result.value <= 0:\n                raise ValueError('negative')\n            return result\n\n        if other <= 0:", 'C06.kind')
 mutant('C08', 'zero-torque-guard-tests-another-value', DC, "        if maximum_torque.value == 0:", "        if maximum_torque.value == 1:", 'C08.boundary-division')
+
+# ------------------------------------------------------------------------------------------ round-6 rules
+mutant('C06', 'neg-through-multiplication', UB, "        return self.__class__(-self.value, self.unit)", "        return self*(-1)", 'C06.neg')
+mutant('C05', 'table-key-written-twice', UN, "        'mNmm': 1e-6,", "        'mNmm': 1e-6,\n        'mNmm': 1e-3,", 'C05.table')
+multi('C11', 'time-grid-in-mutable-default', 'mutant', [
+    (SV, "    def _compute_powertrain_inertia(self):", "    def _grid(self, items, grid=[]):\n        grid.extend(items)\n        return grid\n\n    def _compute_powertrain_inertia(self):")], 'C11.hidden-state')
